@@ -236,7 +236,7 @@ class Region:
                 ps = self.result_discr_sym(ev, (("v", 0), 0))
                 if ps is not None and padt is not None:
                     allv = [prog.variant_discr(PACKET, i) for i in range(len(padt["variants"]))]
-                    for edge, c in primary(ok_targets if ds is not None else [n], ps):
+                    for edge, c in primary(ok_targets or [n], ps):
                         if c[0] == "eq":
                             out.setdefault(("pkt", variant_name(prog, PACKET, c[2])), set()).add(edge)
                         elif c[0] == "neq":
